@@ -20,8 +20,11 @@ import (
 	"bufio"
 	"bytes"
 	"encoding/binary"
+	"errors"
 	"io"
 )
+
+var ErrCorruptedMetadata = errors.New("appendable: corrupted metadata")
 
 type Metadata struct {
 	data map[string][]byte
@@ -50,6 +53,9 @@ func (m *Metadata) ReadFrom(r io.Reader) (int64, error) {
 	lenb, err := readField(r)
 	if err != nil {
 		return 0, err
+	}
+	if len(lenb) < 4 {
+		return 0, ErrCorruptedMetadata
 	}
 	len := int(binary.BigEndian.Uint32(lenb))
 
